@@ -1,4 +1,1567 @@
-(* Damage.v -- stub; the model that belongs here is being written. *)
-From P7 Require Import Prelude.
+(* Damage.v -- the acceptance logic of py7zr's reader as a chain of checks
+   (property C04: damage is detected, no success with different content).
+
+   Mirrors, quirks included:
+     helpers.calculate_crc32                       (py7zr/helpers.py 42-53)
+     SevenZipFile._check_7zfile, SignatureHeader._read   (py7zr.py 777-784, archiveinfo.py 1109-1122)
+     SevenZipFile._real_get_contents, next-header CRC    (py7zr.py 430-438)
+     Header._read, shape of the encoded-header path      (archiveinfo.py 919-962)
+     Worker.extract / extract_single / _extract_single / _check / decompress (py7zr.py 1273-1510)
+     SevenZipFile.test / testzip                         (py7zr.py 1177-1207)
+   Decoders and the header parser are arbitrary functions (Section variables).
+   stdlib only; no axioms. *)
+From P7 Require Import Prelude Crc32.
+From Coq Require Import NArith ZArith List Bool Lia ZifyBool.
+Import ListNotations.
 Open Scope Z_scope.
-Definition damage_dispatch (fn : Z) (a : tree) : tree := TL [TI (-2)].
+
+(* ------------------------------------------------------------------ *)
+(** * Byte-string helpers (Z-indexed: no unary numbers for file offsets) *)
+(* ------------------------------------------------------------------ *)
+
+Fixpoint takeZ (n : Z) (l : bytes) : bytes :=
+  match l with
+  | [] => []
+  | x :: r => if n <=? 0 then [] else x :: takeZ (n - 1) r
+  end.
+
+Fixpoint dropZ (n : Z) (l : bytes) : bytes :=
+  match l with
+  | [] => []
+  | x :: r => if n <=? 0 then l else dropZ (n - 1) r
+  end.
+
+(* data[a : a + n] *)
+Definition sliceZ (a n : Z) (l : bytes) : bytes := takeZ n (dropZ a l).
+
+Definition zlen (l : bytes) : Z := Z.of_nat (length l).
+
+(* struct.unpack("<L"/"<Q") *)
+Fixpoint le_value (bs : bytes) : Z :=
+  match bs with
+  | [] => 0
+  | b :: r => b + 256 * le_value r
+  end.
+
+Fixpoint bytes_eqb (a b : bytes) : bool :=
+  match a, b with
+  | [], [] => true
+  | x :: a', y :: b' => (x =? y) && bytes_eqb a' b'
+  | _, _ => false
+  end.
+
+(* ------------------------------------------------------------------ *)
+(** * helpers.calculate_crc32(data, value, blocksize)                    *)
+(* ------------------------------------------------------------------ *)
+
+(* the while loop: one zlib.crc32 call per block *)
+Fixpoint calc_go (fuel : nat) (bs : Z) (data : bytes) (v : Z) : Z :=
+  match fuel with
+  | O => v
+  | S f =>
+      match data with
+      | [] => v
+      | _ => calc_go f bs (dropZ bs data) (crc32_update v (takeZ bs data))
+      end
+  end.
+
+(* blocksize >= 1 (the default, 1 MiB, is the only value the library passes) *)
+Definition calculate_crc32 (data : bytes) (v : Z) (blocksize : Z) : Z :=
+  if zlen data <=? blocksize then crc32_update v data
+  else calc_go (length data) blocksize data v.
+
+(* CRC over the chunks a decoder hands out: Worker.decompress,
+   `crc32 = calculate_crc32(tmp, crc32)` per chunk *)
+Fixpoint crc_chunks (v : Z) (chunks : list bytes) : Z :=
+  match chunks with
+  | [] => v
+  | c :: r => crc_chunks (crc32_update v c) r
+  end.
+
+(* ------------------------------------------------------------------ *)
+(** * Start header: _check_7zfile + SignatureHeader._read               *)
+(* ------------------------------------------------------------------ *)
+
+Definition magic7z : bytes := [55; 122; 188; 175; 39; 28].
+
+Record sighdr := mkSig { sh_ofs : Z; sh_size : Z; sh_crc : Z }.
+
+(* the 20 bytes the start header CRC covers, and the stored CRC *)
+Definition start_fields (img : bytes) : bytes := sliceZ 12 20 img.
+Definition start_crc (img : bytes) : Z := le_value (sliceZ 8 4 img).
+
+(* read_real_uint64, read_real_uint64, read_uint32 over the 20 bytes *)
+Definition fields_sig (F : bytes) : sighdr :=
+  mkSig (le_value (takeZ 8 F)) (le_value (takeZ 8 (dropZ 8 F))) (le_value (takeZ 4 (dropZ 8 (dropZ 8 F)))).
+
+(* crc = calculate_crc32(data); crc = calculate_crc32(data, crc); crc = calculate_crc32(data, crc) *)
+Definition fields_crc (F : bytes) : Z :=
+  crc32_update (crc32_update (crc32_update 0 (takeZ 8 F)) (takeZ 8 (dropZ 8 F))) (takeZ 4 (dropZ 8 (dropZ 8 F))).
+
+(* bytes 0-5 magic, 6-7 version (read, never looked at), 8-11 start header CRC,
+   12-19 next header offset, 20-27 next header size, 28-31 next header CRC.
+   A short read makes struct.unpack raise struct.error (EOther). *)
+Definition sig_read (img : bytes) : res sighdr :=
+  if negb (bytes_eqb (takeZ 6 img) magic7z) then Err EBad7z        (* "not a 7z file" *)
+  else if zlen img <? 32 then Err EOther
+  else
+    let F := start_fields img in
+    if fields_crc F =? start_crc img then Ok (fields_sig F)
+    else Err EBad7z.                                                (* "invalid header data" *)
+
+(* ------------------------------------------------------------------ *)
+(** * Next header: seek(ofs, SEEK_CUR); read(size); CRC                 *)
+(* ------------------------------------------------------------------ *)
+
+(* [body] is the file from offset 32 on; a read past the end is short *)
+Definition hdr_bytes (body : bytes) (s : sighdr) : bytes :=
+  sliceZ (sh_ofs s) (sh_size s) body.
+
+Definition hdr_read (body : bytes) (s : sighdr) : res bytes :=
+  let h := hdr_bytes body s in
+  if crc32 h =? sh_crc s then Ok h else Err EBad7z.                 (* "invalid header data" *)
+
+(* ------------------------------------------------------------------ *)
+(** * Members, decoders, exceptions                                     *)
+(* ------------------------------------------------------------------ *)
+
+(* what Worker.target_filepath holds for a member: nothing, a MemIO (factory),
+   or a path *)
+Inductive tkind := TNone | TMem | TPath.
+
+Record mfile := mkFile {
+  f_id : Z;
+  f_name : list Z;
+  f_empty : bool;            (* emptystream *)
+  f_crc : option Z;          (* ArchiveFile.crc32: the stored digest when defined *)
+  f_symlink : bool;
+  f_tgt : tkind
+}.
+
+(* what one call of Worker.decompress for a member does: hands out chunks and
+   returns, or the decoder raises, or the folder-level check at the end of the
+   folder raises CrcError(crc, digest, None) *)
+Inductive dres := DOk (chunks : list bytes) | DErr (e : err) | DFolderCrc.
+
+(* CrcError(expected, actual, filename) -- filename None for the folder level *)
+Inductive exn := XCrc (who : option Z) | XErr (e : err).
+
+Inductive outcome := Done (out : list (mfile * bytes)) | Raised (x : exn).
+
+Definition tnone (t : tkind) : bool := match t with TNone => true | _ => false end.
+Definition tpath (t : tkind) : bool := match t with TPath => true | _ => false end.
+
+(* `f.crc32 is not None and crc32 != f.crc32` *)
+Definition crc_bad (stored : option Z) (computed : Z) : bool :=
+  match stored with
+  | Some c => negb (computed =? c)
+  | None => false
+  end.
+
+Section Flow.
+  (* does the symbolic-link branch of _extract_single compare the CRC?
+     (false on the unchanged tree) *)
+  Variable symcheck : bool.
+  (* is_path_valid / utf-8 decoding of a link target *)
+  Variable link_ok : bytes -> bool.
+  (* the decoder, by member id *)
+  Variable dec : Z -> dres.
+
+  (* is the member's CRC compared when it is delivered? *)
+  Definition checked (f : mfile) : bool :=
+    symcheck || negb (f_symlink f && tpath (f_tgt f)).
+
+  (* Worker._check: decode into NullIO, compare *)
+  Fixpoint check (l : list mfile) : option exn :=
+    match l with
+    | [] => None
+    | f :: r =>
+        match dec (f_id f) with
+        | DErr e => Some (XErr e)
+        | DFolderCrc => Some (XCrc None)
+        | DOk ch =>
+            if crc_bad (f_crc f) (crc_chunks 0 ch) then Some (XCrc (Some (f_id f)))
+            else check r
+        end
+    end.
+
+  (* Worker._extract_single: the loop over the files of one folder *)
+  Fixpoint extract_go (skip : bool) (files just : list mfile) (acc : list (mfile * bytes)) : outcome :=
+    match files with
+    | [] =>
+        if skip then Done acc
+        else match check just with Some x => Raised x | None => Done acc end
+    | f :: r =>
+        if tnone (f_tgt f) then
+          if f_empty f then extract_go skip r just acc
+          else extract_go skip r (just ++ [f]) acc
+        else
+          match check just with
+          | Some x => Raised x
+          | None =>
+              if f_empty f then extract_go skip r [] (acc ++ [(f, [])])
+              else
+                match dec (f_id f) with
+                | DErr e => Raised (XErr e)
+                | DFolderCrc => Raised (XCrc None)
+                | DOk ch =>
+                    let d := concat ch in
+                    if f_symlink f && tpath (f_tgt f) then
+                      (* symbolic link created from the decoded bytes *)
+                      if symcheck && crc_bad (f_crc f) (crc_chunks 0 ch) then Raised (XCrc (Some (f_id f)))
+                      else if link_ok d then extract_go skip r [] (acc ++ [(f, d)])
+                      else Raised (XErr EBad7z)
+                    else if crc_bad (f_crc f) (crc_chunks 0 ch) then Raised (XCrc (Some (f_id f)))
+                    else extract_go skip r [] (acc ++ [(f, d)])
+                end
+          end
+    end.
+
+  Definition extract_single (skip : bool) (files : list mfile) (acc : list (mfile * bytes)) : outcome :=
+    extract_go skip files [] acc.
+
+  (* Worker.extract, sequential: the calls of extract_single it makes *)
+  Inductive shape :=
+  | NoStreams (files : list mfile)
+  | OneFolder (files : list mfile)
+  | ManyFolders (files : list mfile) (folders : list (list mfile)).
+
+  Definition has_target (l : list mfile) : bool := existsb (fun f => negb (tnone (f_tgt f))) l.
+
+  (* (skip_notarget, files) per call *)
+  Definition calls (skip : bool) (s : shape) : list (bool * list mfile) :=
+    match s with
+    | NoStreams files => [(true, filter f_empty files)]
+    | OneFolder files => [(skip, files)]
+    | ManyFolders files folders =>
+        (true, filter f_empty files)
+        :: map (fun l => (skip, l)) (filter (fun l => negb skip || has_target l) folders)
+    end.
+
+  Fixpoint run_calls (cs : list (bool * list mfile)) (acc : list (mfile * bytes)) : outcome :=
+    match cs with
+    | [] => Done acc
+    | (sk, l) :: r =>
+        match extract_single sk l acc with
+        | Done acc' => run_calls r acc'
+        | Raised x => Raised x
+        end
+    end.
+
+  Definition worker_extract (skip : bool) (s : shape) : outcome := run_calls (calls skip s) [].
+
+  (* the members whose bytes are decoded, in decoding order *)
+  Definition nonempty (f : mfile) : bool := negb (f_empty f).
+  Definition all_data (s : shape) : list mfile :=
+    match s with
+    | NoStreams _ => []
+    | OneFolder files => filter nonempty files
+    | ManyFolders _ folders => concat (map (filter nonempty) folders)
+    end.
+End Flow.
+
+(* testzip(): every target None, skip_notarget=False, `except CrcError as crce:
+   return crce.args[2]` *)
+Definition clear_f (f : mfile) : mfile :=
+  mkFile (f_id f) (f_name f) (f_empty f) (f_crc f) (f_symlink f) TNone.
+
+Definition clear_shape (s : shape) : shape :=
+  match s with
+  | NoStreams files => NoStreams (map clear_f files)
+  | OneFolder files => OneFolder (map clear_f files)
+  | ManyFolders files folders => ManyFolders (map clear_f files) (map (map clear_f) folders)
+  end.
+
+(* TZ r: returns r (None = "no bad file"); TZFlag: returns something that is not
+   None and not a member name (the repaired variant, [tzfolder] = true) *)
+Inductive tzres := TZ (r : option Z) | TZFlag | TZRaise (e : err).
+
+Definition testzip (tzfolder : bool) (dec : Z -> dres) (s : shape) : tzres :=
+  match worker_extract false (fun _ => true) dec false (clear_shape s) with
+  | Done _ => TZ None
+  | Raised (XCrc (Some i)) => TZ (Some i)
+  | Raised (XCrc None) => if tzfolder then TZFlag else TZ None
+  | Raised (XErr e) => TZRaise e
+  end.
+
+(* test(): packed-stream CRCs.  [body] from offset 32. *)
+Fixpoint test_go (defs : list bool) (sizes crcs : list Z) (pos : Z) (body : bytes) : res bool :=
+  match defs with
+  | [] => Ok true
+  | d :: ds =>
+      match sizes with
+      | [] => Err EOther                                   (* IndexError *)
+      | sz :: ss =>
+          if d then
+            match crcs with
+            | [] => Err EOther                             (* IndexError *)
+            | c :: cs =>
+                if crc32 (sliceZ pos sz body) =? c then test_go ds ss cs (pos + sz) body
+                else Ok false
+            end
+          else test_go ds ss crcs (pos + sz) body
+      end
+  end.
+
+Definition test_model (packpos : Z) (defs : list bool) (sizes crcs : list Z) (body : bytes) : res (option bool) :=
+  match crcs with
+  | [] => Ok None                                          (* "the archive don't have a CRC record" *)
+  | _ => do b <- test_go defs sizes crcs packpos body; Ok (Some b)
+  end.
+
+(* ------------------------------------------------------------------ *)
+(** * The reader as a chain of checks over an abstract header            *)
+(* ------------------------------------------------------------------ *)
+
+Section Reader.
+  Variable symcheck : bool.
+  Variable link_ok : bytes -> bool.
+  Variable hmeta : Type.
+  Variable empty_meta : hmeta.                        (* next header of size 0: empty archive *)
+  Variable parse_plain : bytes -> res hmeta.          (* Header._extract_header_info *)
+  Variable enc_crc : bytes -> option Z.               (* folder CRC in the encoded-header descriptor, when defined *)
+  Variable enc_decode : bytes -> bytes -> res bytes.  (* descriptor, body -> the decoded header stream *)
+  Variable shape_of : hmeta -> shape.                 (* members with the targets the call registered *)
+  Variable decoder : hmeta -> bytes -> Z -> dres.     (* decoding member id out of body *)
+
+  (* Header._read: empty / kHeader / kEncodedHeader *)
+  Definition header_plain (h body : bytes) : res (option bytes) :=
+    match h with
+    | [] => Ok None
+    | pid :: _ =>
+        if pid =? 1 then Ok (Some h)
+        else if pid =? 23 then
+          do d <- enc_decode h body;
+          match enc_crc h with
+          | Some c => if crc32 d =? c then Ok (Some d) else Err EBad7z     (* "invalid block data" *)
+          | None => Ok (Some d)
+          end
+        else Err EOther                                                    (* TypeError "Unknown field" *)
+    end.
+
+  Definition load_meta (h body : bytes) : res hmeta :=
+    do p <- header_plain h body;
+    match p with None => Ok empty_meta | Some b => parse_plain b end.
+
+  Definition open_archive (img : bytes) : res (hmeta * bytes) :=
+    do s <- sig_read img;
+    let body := dropZ 32 img in
+    do h <- hdr_read body s;
+    do m <- load_meta h body;
+    Ok (m, body).
+
+  (* open + extract: the members delivered, or an exception *)
+  Definition read_archive (img : bytes) : outcome :=
+    match open_archive img with
+    | Err e => Raised (XErr e)
+    | Ok (m, body) => worker_extract symcheck link_ok (decoder m body) true (shape_of m)
+    end.
+
+  (* the next header bytes of an image whose start header is accepted *)
+  Definition next_header (img : bytes) : bytes :=
+    match sig_read img with Ok s => hdr_bytes (dropZ 32 img) s | Err _ => [] end.
+
+  Definition plain_header (img : bytes) : option bytes :=
+    match header_plain (next_header img) (dropZ 32 img) with Ok p => p | Err _ => None end.
+
+  (* is the header's content covered by a checksum? raw header: by the next-header
+     CRC; encoded header: only when its folder CRC is stored *)
+  Definition header_protected (h : bytes) : bool :=
+    match h with
+    | [] => true
+    | pid :: _ => (pid =? 1) || ((pid =? 23) && match enc_crc h with Some _ => true | None => false end)
+    end.
+End Reader.
+
+(* ------------------------------------------------------------------ *)
+(** * Tree protocol                                                     *)
+(* ------------------------------------------------------------------ *)
+
+Definition of_tkind (t : tree) : tkind :=
+  let z := of_TI t in if z =? 1 then TMem else if z =? 2 then TPath else TNone.
+
+(* file = (id empty (crc)? symlink tgt) *)
+Definition of_mfile (t : tree) : mfile :=
+  mkFile (of_TI (tnth t 0)) [] (of_bool (tnth t 1)) (of_opt of_TI (tnth t 2)) (of_bool (tnth t 3)) (of_tkind (tnth t 4)).
+
+(* shape = (kind files folders) *)
+Definition of_shape (t : tree) : shape :=
+  let files := map of_mfile (of_TL (tnth t 1)) in
+  let folders := map (fun l => map of_mfile (of_TL l)) (of_TL (tnth t 2)) in
+  let k := of_TI (tnth t 0) in
+  if k =? 0 then NoStreams files else if k =? 1 then OneFolder files else ManyFolders files folders.
+
+Definition of_err (z : Z) : err :=
+  if z =? 1 then EBad7z else if z =? 2 then ECrc else if z =? 3 then EPassword else if z =? 4 then EUnsupported
+  else if z =? 5 then EEof else if z =? 7 then EFuel else EOther.
+
+(* decs = ((id tag payload) ...): tag 0 chunks, 1 error code, 2 folder-level CRC error *)
+Fixpoint of_decs (l : list tree) (i : Z) : dres :=
+  match l with
+  | [] => DErr EOther
+  | t :: r =>
+      if of_TI (tnth t 0) =? i then
+        let tag := of_TI (tnth t 1) in
+        if tag =? 0 then DOk (map of_bytes (of_TL (tnth t 2)))
+        else if tag =? 2 then DFolderCrc
+        else DErr (of_err (of_TI (tnth t 2)))
+      else of_decs r i
+  end.
+
+Definition t_exn (x : exn) : tree :=
+  match x with
+  | XCrc (Some i) => TL [TI 1; TL [TI i]]
+  | XCrc None => TL [TI 1; TL []]
+  | XErr e => TL [TI 2; t_err e]
+  end.
+
+Definition t_outcome (o : outcome) : tree :=
+  match o with
+  | Done out => TL [TI 0; TL (map (fun '(f, d) => TL [TI (f_id f); t_bytes d]) out)]
+  | Raised x => t_exn x
+  end.
+
+Definition t_tzres (r : tzres) : tree :=
+  match r with
+  | TZ None => TL [TI 0; TL []]
+  | TZ (Some i) => TL [TI 0; TL [TI i]]
+  | TZFlag => TL [TI 3]
+  | TZRaise e => TL [TI 2; t_err e]
+  end.
+
+Definition damage_dispatch (fn : Z) (a : tree) : tree :=
+  match fn with
+  (* FN 400 dmg_calculate_crc32 : (data value blocksize) -> int *)
+  | 400 => TI (calculate_crc32 (of_bytes (tnth a 0)) (of_TI (tnth a 1)) (of_TI (tnth a 2)))
+  (* FN 401 dmg_sig_read : image -> res (ofs size crc) *)
+  | 401 => t_res (fun s => TL [TI (sh_ofs s); TI (sh_size s); TI (sh_crc s)]) (sig_read (of_bytes a))
+  (* FN 402 dmg_hdr_read : (body ofs size crc) -> res bytes *)
+  | 402 => t_res t_bytes (hdr_read (of_bytes (tnth a 0))
+                            (mkSig (of_TI (tnth a 1)) (of_TI (tnth a 2)) (of_TI (tnth a 3))))
+  (* FN 403 dmg_extract : (symcheck skip shape decs) -> outcome *)
+  | 403 => t_outcome (worker_extract (of_bool (tnth a 0)) (fun _ => true) (of_decs (of_TL (tnth a 3)))
+                        (of_bool (tnth a 1)) (of_shape (tnth a 2)))
+  (* FN 404 dmg_testzip : (tzfolder shape decs) -> tzres *)
+  | 404 => t_tzres (testzip (of_bool (tnth a 0)) (of_decs (of_TL (tnth a 2))) (of_shape (tnth a 1)))
+  (* FN 405 dmg_test : (packpos defs sizes crcs body) -> res (() | (bool)) *)
+  | 405 => t_res (t_opt t_bool) (test_model (of_TI (tnth a 0)) (map of_bool (of_TL (tnth a 1)))
+                                   (map of_TI (of_TL (tnth a 2))) (map of_TI (of_TL (tnth a 3))) (of_bytes (tnth a 4)))
+  | _ => TL [TI (-2)]
+  end.
+
+(* ------------------------------------------------------------------ *)
+(** * Proofs: byte-string helpers                                        *)
+(* ------------------------------------------------------------------ *)
+
+Lemma zlen_cons x l : zlen (x :: l) = zlen l + 1.
+Proof. unfold zlen. cbn [length]. lia. Qed.
+
+Lemma zlen_nonneg l : 0 <= zlen l.
+Proof. unfold zlen. lia. Qed.
+
+Lemma zlen_app a b : zlen (a ++ b) = zlen a + zlen b.
+Proof. unfold zlen. rewrite app_length. lia. Qed.
+
+Lemma takeZ_nonpos n l : n <= 0 -> takeZ n l = [].
+Proof. intros Hn. destruct l as [| x r]; [reflexivity |]. cbn [takeZ]. destruct (n <=? 0) eqn:E; [reflexivity | lia]. Qed.
+
+Lemma dropZ_nonpos n l : n <= 0 -> dropZ n l = l.
+Proof. intros Hn. destruct l as [| x r]; [reflexivity |]. cbn [dropZ]. destruct (n <=? 0) eqn:E; [reflexivity | lia]. Qed.
+
+Lemma takeZ_app_len a b : takeZ (zlen a) (a ++ b) = a.
+Proof.
+  induction a as [| x r IH].
+  - cbn [app]. apply takeZ_nonpos. unfold zlen. cbn. lia.
+  - cbn [app takeZ]. rewrite zlen_cons. pose proof (zlen_nonneg r) as Hr.
+    destruct (zlen r + 1 <=? 0) eqn:E; [lia |].
+    replace (zlen r + 1 - 1) with (zlen r) by lia. rewrite IH. reflexivity.
+Qed.
+
+Lemma takeZ_app_le n a b : n <= zlen a -> takeZ n (a ++ b) = takeZ n a.
+Proof.
+  revert n. induction a as [| x r IH]; intros n Hn.
+  - unfold zlen in Hn. cbn in Hn. rewrite !takeZ_nonpos by lia. reflexivity.
+  - cbn [app takeZ]. rewrite zlen_cons in Hn. destruct (n <=? 0) eqn:E; [reflexivity |].
+    rewrite IH by lia. reflexivity.
+Qed.
+
+Lemma dropZ_app_plus a b k : 0 <= k -> dropZ (zlen a + k) (a ++ b) = dropZ k b.
+Proof.
+  intros Hk. induction a as [| x r IH].
+  - cbn [app]. unfold zlen. cbn [length Z.of_nat]. f_equal.
+  - cbn [app dropZ]. rewrite zlen_cons. pose proof (zlen_nonneg r) as Hr.
+    destruct (zlen r + 1 + k <=? 0) eqn:E; [lia |].
+    replace (zlen r + 1 + k - 1) with (zlen r + k) by lia. exact IH.
+Qed.
+
+Lemma dropZ_app_len a b : dropZ (zlen a) (a ++ b) = b.
+Proof.
+  replace (zlen a) with (zlen a + 0) by lia. rewrite dropZ_app_plus by lia.
+  apply dropZ_nonpos. lia.
+Qed.
+
+Lemma takeZ_all n l : zlen l <= n -> takeZ n l = l.
+Proof.
+  revert n. induction l as [| x r IH]; intros n Hn; [reflexivity |].
+  cbn [takeZ]. rewrite zlen_cons in Hn. pose proof (zlen_nonneg r) as Hr.
+  destruct (n <=? 0) eqn:E; [lia |]. rewrite IH by lia. reflexivity.
+Qed.
+
+Lemma take_drop_Z n l : takeZ n l ++ dropZ n l = l.
+Proof.
+  revert n. induction l as [| x r IH]; intros n; [reflexivity |].
+  cbn [takeZ dropZ]. destruct (n <=? 0) eqn:E; [reflexivity |].
+  cbn [app]. rewrite IH. reflexivity.
+Qed.
+
+Lemma zlen_takeZ_le n l : 0 <= n -> zlen (takeZ n l) <= n.
+Proof.
+  revert n. induction l as [| x r IH]; intros n Hn; [unfold zlen; cbn; lia |].
+  cbn [takeZ]. destruct (n <=? 0) eqn:E; [unfold zlen; cbn; lia |].
+  rewrite zlen_cons. specialize (IH (n - 1)). lia.
+Qed.
+
+Lemma zlen_dropZ_le n l : 0 <= n -> zlen (dropZ n l) <= Z.max 0 (zlen l - n).
+Proof.
+  revert n. induction l as [| x r IH]; intros n Hn; [unfold zlen; cbn; lia |].
+  cbn [dropZ]. destruct (n <=? 0) eqn:E; [lia |].
+  rewrite zlen_cons. specialize (IH (n - 1)). lia.
+Qed.
+
+Lemma dropZ_shorter n x r : 1 <= n -> (length (dropZ n (x :: r)) <= length r)%nat.
+Proof.
+  intros Hn. pose proof (zlen_dropZ_le n (x :: r)) as H. rewrite zlen_cons in H. unfold zlen in H. lia.
+Qed.
+
+Lemma sliceZ_mid pre m post : sliceZ (zlen pre) (zlen m) (pre ++ m ++ post) = m.
+Proof. unfold sliceZ. rewrite dropZ_app_len, takeZ_app_len. reflexivity. Qed.
+
+Lemma bytes_eqb_eq a b : bytes_eqb a b = true <-> a = b.
+Proof.
+  revert b. induction a as [| x r IH]; intros [| y s]; cbn [bytes_eqb]; split; intros H;
+    try reflexivity; try discriminate.
+  - apply andb_prop in H. destruct H as [Hxy Hr]. apply Z.eqb_eq in Hxy. apply IH in Hr. subst. reflexivity.
+  - injection H as -> ->. rewrite Z.eqb_refl. cbn. apply IH. reflexivity.
+Qed.
+
+Lemma le_value_inj a b :
+  wf_bytes a = true -> wf_bytes b = true -> length a = length b -> le_value a = le_value b -> a = b.
+Proof.
+  revert b. induction a as [| x r IH]; intros [| y s] Ha Hb Hl Hv; try reflexivity; try discriminate.
+  unfold wf_bytes in Ha, Hb. cbn [forallb] in Ha, Hb.
+  apply andb_prop in Ha. destruct Ha as [Hx Hr]. apply andb_prop in Hb. destruct Hb as [Hy Hs].
+  unfold is_byte in Hx, Hy. cbn [le_value] in Hv. cbn [length] in Hl.
+  assert (x = y) by lia. assert (le_value r = le_value s) by lia.
+  subst y. f_equal. apply IH; [exact Hr | exact Hs | lia | assumption].
+Qed.
+
+Lemma bytes_eq_dec (a b : bytes) : {a = b} + {a <> b}.
+Proof. apply list_eq_dec, Z.eq_dec. Qed.
+
+(* ------------------------------------------------------------------ *)
+(** * Proofs: CRC chaining                                               *)
+(* ------------------------------------------------------------------ *)
+
+Lemma crc32_update_app' v a b : crc32_update v (a ++ b) = crc32_update (crc32_update v a) b.
+Proof. unfold crc32_update. rewrite crc_raw_app, N2Z.id, lxor_twice_r. reflexivity. Qed.
+
+Lemma crc_chunks_concat chunks v :
+  0 <= v < 2 ^ 32 -> crc_chunks v chunks = crc32_update v (concat chunks).
+Proof.
+  revert v. induction chunks as [| c r IH]; intros v Hv.
+  - cbn [crc_chunks concat]. symmetry. apply crc32_update_nil. exact Hv.
+  - cbn [crc_chunks concat]. rewrite crc32_update_app'. apply IH. apply crc32_update_range. exact Hv.
+Qed.
+
+(* Worker.decompress: the CRC accumulated over the chunks is the CRC of the bytes written *)
+Lemma crc_chunks_0 chunks : crc_chunks 0 chunks = crc32 (concat chunks).
+Proof. unfold crc32. apply crc_chunks_concat. change (2 ^ 32) with 4294967296. lia. Qed.
+
+Lemma calc_go_eq bs : 1 <= bs -> forall fuel data v,
+  0 <= v < 2 ^ 32 -> (length data <= fuel)%nat -> calc_go fuel bs data v = crc32_update v data.
+Proof.
+  intros Hbs. induction fuel as [| f IH]; intros data v Hv Hlen.
+  - destruct data; [| cbn in Hlen; lia]. cbn [calc_go]. symmetry. apply crc32_update_nil. exact Hv.
+  - cbn [calc_go]. destruct data as [| x r].
+    + symmetry. apply crc32_update_nil. exact Hv.
+    + rewrite IH.
+      * rewrite <- crc32_update_app', take_drop_Z. reflexivity.
+      * apply crc32_update_range. exact Hv.
+      * pose proof (dropZ_shorter bs x r Hbs). cbn [length] in Hlen. lia.
+Qed.
+
+(* helpers.calculate_crc32: block-wise chaining computes the CRC of the whole *)
+Theorem calculate_crc32_eq : forall data v bs,
+  1 <= bs -> 0 <= v < 2 ^ 32 -> calculate_crc32 data v bs = crc32_update v data.
+Proof.
+  intros data v bs Hbs Hv. unfold calculate_crc32.
+  destruct (zlen data <=? bs); [reflexivity |]. apply calc_go_eq; [exact Hbs | exact Hv | lia].
+Qed.
+
+(* ------------------------------------------------------------------ *)
+(** * Proofs: start header                                               *)
+(* ------------------------------------------------------------------ *)
+
+Lemma fields_crc_eq F : zlen F <= 20 -> fields_crc F = crc32 F.
+Proof.
+  intros HF. unfold fields_crc, crc32.
+  rewrite <- !crc32_update_app'. f_equal.
+  pose proof (zlen_dropZ_le 8 F) as H1. pose proof (zlen_dropZ_le 8 (dropZ 8 F)) as H2.
+  rewrite (takeZ_all 4 (dropZ 8 (dropZ 8 F))) by lia.
+  rewrite (take_drop_Z 8 (dropZ 8 F)), (take_drop_Z 8 F). reflexivity.
+Qed.
+
+Lemma start_fields_len img : zlen (start_fields img) <= 20.
+Proof. unfold start_fields, sliceZ. apply zlen_takeZ_le. lia. Qed.
+
+(* what acceptance of the start header means *)
+Lemma sig_read_ok img s :
+  sig_read img = Ok s ->
+  takeZ 6 img = magic7z /\ crc32 (start_fields img) = start_crc img /\ s = fields_sig (start_fields img).
+Proof.
+  unfold sig_read. intros H.
+  destruct (bytes_eqb (takeZ 6 img) magic7z) eqn:Em; cbn [negb] in H; [| discriminate].
+  destruct (zlen img <? 32) eqn:El; [discriminate |].
+  destruct (fields_crc (start_fields img) =? start_crc img) eqn:Ec; [| discriminate].
+  injection H as <-. apply bytes_eqb_eq in Em. apply Z.eqb_eq in Ec.
+  rewrite fields_crc_eq in Ec by apply start_fields_len. auto.
+Qed.
+
+Lemma sig_read_split pre c F body :
+  zlen pre = 8 -> zlen c = 4 -> zlen F = 20 ->
+  sig_read (pre ++ c ++ F ++ body) =
+    if negb (bytes_eqb (takeZ 6 pre) magic7z) then Err EBad7z
+    else if crc32 F =? le_value c then Ok (fields_sig F) else Err EBad7z.
+Proof.
+  intros Hp Hc HF. unfold sig_read.
+  rewrite takeZ_app_le by lia.
+  destruct (negb (bytes_eqb (takeZ 6 pre) magic7z)); [reflexivity |].
+  assert (Hlen : zlen (pre ++ c ++ F ++ body) <? 32 = false).
+  { rewrite !zlen_app. pose proof (zlen_nonneg body). lia. }
+  rewrite Hlen.
+  assert (HFs : start_fields (pre ++ c ++ F ++ body) = F).
+  { unfold start_fields. rewrite (app_assoc pre c).
+    replace 12 with (zlen (pre ++ c)) by (rewrite zlen_app; lia).
+    replace 20 with (zlen F) by lia. apply sliceZ_mid. }
+  assert (Hcs : start_crc (pre ++ c ++ F ++ body) = le_value c).
+  { unfold start_crc. replace 8 with (zlen pre) by lia. replace 4 with (zlen c) by lia.
+    rewrite sliceZ_mid. reflexivity. }
+  rewrite HFs, Hcs, fields_crc_eq by lia. reflexivity.
+Qed.
+
+(* a <= 32-bit burst between two byte strings of equal length *)
+Definition burst (a b : bytes) : Prop :=
+  length a = length b /\
+  exists (e k : N), N.lxor (le_bits a) (le_bits b) = N.shiftl e k /\ (0 < e < 2 ^ 32)%N.
+
+Lemma burst_crc a b : burst a b -> crc32 a <> crc32 b.
+Proof. intros [Hl [e [k [Hx He]]]]. unfold crc32. exact (crc32_burst32 0 a b e k Hl Hx He). Qed.
+
+(* any alteration of the 20 start-header bytes confined to <= 32 consecutive bits is rejected *)
+Theorem burst_detected_start_header : forall pre c F F' body s,
+  zlen pre = 8 -> zlen c = 4 -> zlen F = 20 ->
+  sig_read (pre ++ c ++ F ++ body) = Ok s ->
+  burst F F' ->
+  sig_read (pre ++ c ++ F' ++ body) = Err EBad7z.
+Proof.
+  intros pre c F F' body s Hp Hc HF Hok Hb.
+  assert (HF' : zlen F' = 20) by (destruct Hb as [Hl _]; unfold zlen in *; lia).
+  rewrite sig_read_split in Hok by assumption. rewrite sig_read_split by assumption.
+  destruct (negb (bytes_eqb (takeZ 6 pre) magic7z)); [reflexivity |].
+  destruct (crc32 F =? le_value c) eqn:E; [| discriminate]. apply Z.eqb_eq in E.
+  destruct (crc32 F' =? le_value c) eqn:E'; [| reflexivity]. apply Z.eqb_eq in E'.
+  exfalso. apply (burst_crc F F' Hb). lia.
+Qed.
+
+(* any alteration of the stored start-header CRC alone is rejected *)
+Theorem start_crc_alteration_rejected : forall pre c c' F body s,
+  zlen pre = 8 -> zlen c = 4 -> zlen c' = 4 -> zlen F = 20 ->
+  wf_bytes c = true -> wf_bytes c' = true -> c <> c' ->
+  sig_read (pre ++ c ++ F ++ body) = Ok s ->
+  sig_read (pre ++ c' ++ F ++ body) = Err EBad7z.
+Proof.
+  intros pre c c' F body s Hp Hc Hc' HF Hw Hw' Hne Hok.
+  rewrite sig_read_split in Hok by assumption. rewrite sig_read_split by assumption.
+  destruct (negb (bytes_eqb (takeZ 6 pre) magic7z)); [reflexivity |].
+  destruct (crc32 F =? le_value c) eqn:E; [| discriminate]. apply Z.eqb_eq in E.
+  destruct (crc32 F =? le_value c') eqn:E'; [| reflexivity]. apply Z.eqb_eq in E'.
+  exfalso. apply Hne. apply le_value_inj; [assumption | assumption | unfold zlen in *; lia | lia].
+Qed.
+
+(* any alteration of the magic is rejected *)
+Theorem magic_alteration_rejected : forall m rest,
+  zlen m = 6 -> m <> magic7z -> sig_read (m ++ rest) = Err EBad7z.
+Proof.
+  intros m rest Hm Hne. unfold sig_read.
+  replace 6 with (zlen m) by lia. rewrite takeZ_app_len.
+  destruct (bytes_eqb m magic7z) eqn:E; [apply bytes_eqb_eq in E; contradiction | reflexivity].
+Qed.
+
+(* ------------------------------------------------------------------ *)
+(** * Proofs: next header                                                *)
+(* ------------------------------------------------------------------ *)
+
+Lemma hdr_read_ok body s h : hdr_read body s = Ok h -> h = hdr_bytes body s /\ crc32 h = sh_crc s.
+Proof.
+  unfold hdr_read. intros H. destruct (crc32 (hdr_bytes body s) =? sh_crc s) eqn:E; [| discriminate].
+  injection H as <-. apply Z.eqb_eq in E. auto.
+Qed.
+
+Theorem burst_detected_header : forall pre h h' post s,
+  zlen pre = sh_ofs s -> zlen h = sh_size s ->
+  hdr_read (pre ++ h ++ post) s = Ok h ->
+  burst h h' ->
+  hdr_read (pre ++ h' ++ post) s = Err EBad7z.
+Proof.
+  intros pre h h' post s Hp Hh Hok Hb.
+  assert (Hh' : zlen h' = sh_size s) by (destruct Hb as [Hl _]; unfold zlen in *; lia).
+  apply hdr_read_ok in Hok. destruct Hok as [_ Hc].
+  unfold hdr_read, hdr_bytes. rewrite <- Hp, <- Hh', sliceZ_mid.
+  destruct (crc32 h' =? sh_crc s) eqn:E; [| reflexivity]. apply Z.eqb_eq in E.
+  exfalso. apply (burst_crc h h' Hb). lia.
+Qed.
+
+(* ------------------------------------------------------------------ *)
+(** * Proofs: the control flow of extraction ("delivered => checked")    *)
+(* ------------------------------------------------------------------ *)
+
+Section FlowProofs.
+  Variable symcheck : bool.
+  Variable link_ok : bytes -> bool.
+  Variable dec : Z -> dres.
+
+  Notation check := (check dec).
+  Notation extract_go := (extract_go symcheck link_ok dec).
+  Notation checked := (checked symcheck).
+
+  (* the member was decoded without error and its CRC compared equal (or none is stored) *)
+  Definition passes (f : mfile) : Prop :=
+    exists ch, dec (f_id f) = DOk ch /\ crc_bad (f_crc f) (crc_chunks 0 ch) = false.
+
+  (* what is known about a delivered pair *)
+  Definition delivered_ok (f : mfile) (d : bytes) : Prop :=
+    (f_empty f = true /\ d = []) \/
+    (f_empty f = false /\ exists ch, dec (f_id f) = DOk ch /\ d = concat ch /\
+       (checked f = true -> crc_bad (f_crc f) (crc_chunks 0 ch) = false)).
+
+  Lemma check_app a b : check (a ++ b) = match check a with Some x => Some x | None => check b end.
+  Proof.
+    induction a as [| f r IH]; [reflexivity |].
+    cbn [app check]. destruct (dec (f_id f)) as [ch | e |]; try reflexivity.
+    destruct (crc_bad (f_crc f) (crc_chunks 0 ch)); [reflexivity | exact IH].
+  Qed.
+
+  Lemma check_none_passes l : check l = None -> forall f, In f l -> passes f.
+  Proof.
+    induction l as [| g r IH]; intros H f Hin; [contradiction |].
+    cbn [check] in H. destruct (dec (f_id g)) as [ch | e |] eqn:Ed; try discriminate.
+    destruct (crc_bad (f_crc g) (crc_chunks 0 ch)) eqn:Ec; [discriminate |].
+    destruct Hin as [<- | Hin]; [exists ch; auto | apply IH; assumption].
+  Qed.
+
+  Lemma passes_check_none l : (forall f, In f l -> passes f) -> check l = None.
+  Proof.
+    induction l as [| g r IH]; intros H; [reflexivity |].
+    cbn [check]. destruct (H g (or_introl eq_refl)) as [ch [Ed Ec]]. rewrite Ed, Ec.
+    apply IH. intros f Hf. apply H. right. exact Hf.
+  Qed.
+
+  Lemma check_foldercrc l : check l = Some (XCrc None) -> exists f, In f l /\ dec (f_id f) = DFolderCrc.
+  Proof.
+    induction l as [| g r IH]; intros H; [discriminate |].
+    cbn [check] in H. destruct (dec (f_id g)) as [ch | e |] eqn:Ed.
+    - destruct (crc_bad (f_crc g) (crc_chunks 0 ch)); [discriminate |].
+      destruct (IH H) as [f [Hin Hf]]. exists f. split; [right; exact Hin | exact Hf].
+    - discriminate.
+    - exists g. split; [left; reflexivity | exact Ed].
+  Qed.
+
+  (* soundness: whatever is delivered was decoded and, unless it is an unchecked link, compared *)
+  Lemma go_sound : forall files skip just acc out,
+    extract_go skip files just acc = Done out ->
+    forall p, In p out ->
+      In p acc \/ (In (fst p) files /\ tnone (f_tgt (fst p)) = false /\ delivered_ok (fst p) (snd p)).
+  Proof.
+    induction files as [| f r IH]; intros skip just acc out H p Hp.
+    - cbn [extract_go] in H. destruct skip.
+      + injection H as <-. left. exact Hp.
+      + destruct (check just); [discriminate |]. injection H as <-. left. exact Hp.
+    - cbn [extract_go] in H.
+      assert (Hlift : forall d, extract_go skip r [] (acc ++ [(f, d)]) = Done out ->
+                tnone (f_tgt f) = false -> delivered_ok f d ->
+                In p acc \/ (In (fst p) (f :: r) /\ tnone (f_tgt (fst p)) = false /\ delivered_ok (fst p) (snd p))).
+      { intros d Hgo Ht Hd. destruct (IH _ _ _ _ Hgo p Hp) as [Hin | [Hin Hrest]].
+        - apply in_app_or in Hin. destruct Hin as [Hin | [<- | []]]; [left; exact Hin |].
+          right. cbn [fst snd]. split; [left; reflexivity | split; assumption].
+        - right. split; [right; exact Hin | exact Hrest]. }
+      destruct (tnone (f_tgt f)) eqn:Et.
+      + assert (Hrec : forall j, extract_go skip r j acc = Done out ->
+                  In p acc \/ (In (fst p) (f :: r) /\ tnone (f_tgt (fst p)) = false /\ delivered_ok (fst p) (snd p))).
+        { intros j Hgo. destruct (IH _ _ _ _ Hgo p Hp) as [Hin | [Hin Hrest]]; [left; exact Hin |].
+          right. split; [right; exact Hin | exact Hrest]. }
+        destruct (f_empty f); eapply Hrec; exact H.
+      + destruct (check just); [discriminate |].
+        destruct (f_empty f) eqn:Ee.
+        * apply (Hlift [] H eq_refl). left. auto.
+        * destruct (dec (f_id f)) as [ch | e |] eqn:Ed; try discriminate.
+          destruct (f_symlink f && tpath (f_tgt f)) eqn:Es.
+          -- destruct (symcheck && crc_bad (f_crc f) (crc_chunks 0 ch)) eqn:Ec; [discriminate |].
+             destruct (link_ok (concat ch)); [| discriminate].
+             apply (Hlift (concat ch) H eq_refl). right. split; [exact Ee |].
+             exists ch. split; [exact Ed | split; [reflexivity |]].
+             unfold checked. rewrite Es. cbn [negb]. rewrite orb_false_r. intros ->.
+             cbn [andb] in Ec. exact Ec.
+          -- destruct (crc_bad (f_crc f) (crc_chunks 0 ch)) eqn:Ec; [discriminate |].
+             apply (Hlift (concat ch) H eq_refl). right. split; [exact Ee |].
+             exists ch. split; [exact Ed | split; [reflexivity | intros _; exact Ec]].
+  Qed.
+
+  (* completeness: a successful call delivers every member that has a target, and keeps what was delivered *)
+  Lemma go_complete : forall files skip just acc out,
+    extract_go skip files just acc = Done out ->
+    (forall p, In p acc -> In p out) /\
+    (forall f, In f files -> tnone (f_tgt f) = false -> exists d, In (f, d) out).
+  Proof.
+    induction files as [| f r IH]; intros skip just acc out H.
+    - cbn [extract_go] in H. split; [| intros f []].
+      destruct skip; [injection H as <-; auto |].
+      destruct (check just); [discriminate |]. injection H as <-. auto.
+    - cbn [extract_go] in H.
+      assert (Hlift : forall d, extract_go skip r [] (acc ++ [(f, d)]) = Done out ->
+                (forall p, In p acc -> In p out) /\
+                (forall g, In g (f :: r) -> tnone (f_tgt g) = false -> exists d, In (g, d) out)).
+      { intros d Hgo. destruct (IH _ _ _ _ Hgo) as [Hacc Hall]. split.
+        - intros p Hp. apply Hacc. apply in_or_app. left. exact Hp.
+        - intros g [<- | Hg] Ht; [| apply Hall; assumption].
+          exists d. apply Hacc. apply in_or_app. right. left. reflexivity. }
+      destruct (tnone (f_tgt f)) eqn:Et.
+      + assert (Hrec : forall j, extract_go skip r j acc = Done out ->
+                  (forall p, In p acc -> In p out) /\
+                  (forall g, In g (f :: r) -> tnone (f_tgt g) = false -> exists d, In (g, d) out)).
+        { intros j Hgo. destruct (IH _ _ _ _ Hgo) as [Hacc Hall]. split; [exact Hacc |].
+          intros g [<- | Hg] Ht; [congruence | apply Hall; assumption]. }
+        destruct (f_empty f); eapply Hrec; exact H.
+      + destruct (check just); [discriminate |].
+        destruct (f_empty f); [apply (Hlift [] H) |].
+        destruct (dec (f_id f)) as [ch | e |]; try discriminate.
+        destruct (f_symlink f && tpath (f_tgt f)).
+        * destruct (symcheck && crc_bad (f_crc f) (crc_chunks 0 ch)); [discriminate |].
+          destruct (link_ok (concat ch)); [| discriminate]. apply (Hlift _ H).
+        * destruct (crc_bad (f_crc f) (crc_chunks 0 ch)); [discriminate |]. apply (Hlift _ H).
+  Qed.
+
+  (* with every target None (testzip) a call is one run of _check over the folder's data members *)
+  Lemma go_all_none : forall files just acc,
+    (forall f, In f files -> tnone (f_tgt f) = true) ->
+    extract_go false files just acc =
+      match check (just ++ filter nonempty files) with Some x => Raised x | None => Done acc end.
+  Proof.
+    induction files as [| f r IH]; intros just acc Hn.
+    - cbn [extract_go filter]. rewrite app_nil_r. reflexivity.
+    - cbn [extract_go filter]. rewrite (Hn f (or_introl eq_refl)). unfold nonempty at 1.
+      assert (Hr : forall g, In g r -> tnone (f_tgt g) = true) by (intros g Hg; apply Hn; right; exact Hg).
+      destruct (f_empty f); cbn [negb].
+      + apply IH. exact Hr.
+      + rewrite IH by exact Hr. rewrite <- app_assoc. reflexivity.
+  Qed.
+
+  Lemma go_all_empty : forall files skip acc,
+    (forall f, In f files -> tnone (f_tgt f) = true) -> (forall f, In f files -> f_empty f = true) ->
+    extract_go skip files [] acc = Done acc.
+  Proof.
+    induction files as [| f r IH]; intros skip acc Hn He.
+    - cbn [extract_go]. destruct skip; reflexivity.
+    - cbn [extract_go]. rewrite (Hn f (or_introl eq_refl)), (He f (or_introl eq_refl)).
+      apply IH; intros g Hg; [apply Hn | apply He]; right; exact Hg.
+  Qed.
+
+  (* ---- the sequence of calls ---- *)
+  Notation run_calls := (run_calls symcheck link_ok dec).
+
+  Lemma run_sound : forall cs acc out,
+    run_calls cs acc = Done out ->
+    forall p, In p out ->
+      In p acc \/ (exists sk l, In (sk, l) cs /\ In (fst p) l /\ tnone (f_tgt (fst p)) = false /\
+                                delivered_ok (fst p) (snd p)).
+  Proof.
+    induction cs as [| [sk l] r IH]; intros acc out H p Hp.
+    - injection H as <-. left. exact Hp.
+    - cbn [run_calls] in H. unfold extract_single in H.
+      destruct (extract_go sk l [] acc) as [acc' | x] eqn:Eg; [| discriminate].
+      destruct (IH _ _ H p Hp) as [Hin | [sk' [l' [Hc Hrest]]]].
+      + destruct (go_sound _ _ _ _ _ Eg p Hin) as [Ha | Hb]; [left; exact Ha |].
+        right. exists sk, l. split; [left; reflexivity | exact Hb].
+      + right. exists sk', l'. split; [right; exact Hc | exact Hrest].
+  Qed.
+
+  Lemma run_complete : forall cs acc out,
+    run_calls cs acc = Done out ->
+    (forall p, In p acc -> In p out) /\
+    (forall sk l f, In (sk, l) cs -> In f l -> tnone (f_tgt f) = false -> exists d, In (f, d) out).
+  Proof.
+    induction cs as [| [sk l] r IH]; intros acc out H.
+    - injection H as <-. split; [auto | intros sk l f []].
+    - cbn [run_calls] in H. unfold extract_single in H.
+      destruct (extract_go sk l [] acc) as [acc' | x] eqn:Eg; [| discriminate].
+      destruct (IH _ _ H) as [Hacc Hall]. destruct (go_complete _ _ _ _ _ Eg) as [Ha Hf]. split.
+      + intros p Hp. apply Hacc, Ha, Hp.
+      + intros sk' l' f [Hc | Hc] Hin Ht.
+        * injection Hc as <- <-. destruct (Hf f Hin Ht) as [d Hd]. exists d. apply Hacc, Hd.
+        * eapply Hall; eassumption.
+  Qed.
+End FlowProofs.
+
+(* "delivered => checked": every member a successful extraction hands out was decoded by the
+   decoder and -- unless it is a symbolic link created on disk by the unrepaired code -- its
+   CRC-32 equals the stored one *)
+Theorem delivered_implies_checked : forall symcheck link_ok dec skip s out f d c,
+  worker_extract symcheck link_ok dec skip s = Done out ->
+  In (f, d) out -> checked symcheck f = true -> f_crc f = Some c -> f_empty f = false ->
+  crc32 d = c.
+Proof.
+  intros symcheck link_ok dec skip s out f d c H Hin Hck Hc He.
+  unfold worker_extract in H.
+  destruct (run_sound _ _ _ _ _ _ H (f, d) Hin) as [[] | [sk [l [_ [_ [_ Hd]]]]]].
+  cbn [fst snd] in Hd. destruct Hd as [[He' _] | [_ [ch [_ [-> Hcrc]]]]]; [congruence |].
+  specialize (Hcrc Hck). rewrite Hc in Hcrc. cbn [crc_bad] in Hcrc.
+  rewrite crc_chunks_0 in Hcrc. lia.
+Qed.
+
+Definition crc_collision (a b : bytes) : Prop := a <> b /\ crc32 a = crc32 b.
+
+(* ... hence the original bytes, or an explicit CRC-32 collision *)
+Corollary delivered_intact_or_collision : forall symcheck link_ok dec skip s out f d d',
+  worker_extract symcheck link_ok dec skip s = Done out ->
+  In (f, d') out -> checked symcheck f = true -> f_empty f = false ->
+  f_crc f = Some (crc32 d) ->                 (* the stored CRC is that of the original content d *)
+  d' = d \/ crc_collision d d'.
+Proof.
+  intros symcheck link_ok dec skip s out f d d' H Hin Hck He Hc.
+  pose proof (delivered_implies_checked _ _ _ _ _ _ _ _ _ H Hin Hck Hc He) as Hcrc.
+  destruct (bytes_eq_dec d' d) as [-> | Hne]; [left; reflexivity |].
+  right. split; [congruence | congruence].
+Qed.
+
+(* under the Copy coder the decoded member is a slice of the packed bytes: every <= 32-bit burst
+   inside it makes the extraction fail *)
+Theorem copy_burst_detected : forall symcheck link_ok dec skip s f pre d d' post chunks,
+  (exists sk l, In (sk, l) (calls skip s) /\ In f l) ->
+  tnone (f_tgt f) = false -> f_empty f = false -> checked symcheck f = true ->
+  f_crc f = Some (crc32 d) ->
+  burst d d' ->
+  dec (f_id f) = DOk chunks ->
+  concat chunks = sliceZ (zlen pre) (zlen d') (pre ++ d' ++ post) ->    (* Copy: bytes of the damaged body *)
+  forall out, worker_extract symcheck link_ok dec skip s <> Done out.
+Proof.
+  intros symcheck link_ok dec skip s f pre d d' post chunks [sk [l [Hc Hl]]] Ht He Hck Hcrc Hb Hd Hcopy out H.
+  rewrite sliceZ_mid in Hcopy.
+  unfold worker_extract in H.
+  destruct (run_complete _ _ _ _ _ _ H) as [_ Hall].
+  destruct (Hall sk l f Hc Hl Ht) as [x Hx].
+  destruct (run_sound _ _ _ _ _ _ H (f, x) Hx) as [[] | [sk' [l' [_ [_ [_ Hdel]]]]]].
+  cbn [fst snd] in Hdel. destruct Hdel as [[He' _] | [_ [ch [Hd' [-> Hok]]]]]; [congruence |].
+  rewrite Hd in Hd'. injection Hd' as <-. specialize (Hok Hck). rewrite Hcrc in Hok.
+  cbn [crc_bad] in Hok. rewrite crc_chunks_0, Hcopy in Hok.
+  apply (burst_crc d d' Hb). lia.
+Qed.
+
+(* ------------------------------------------------------------------ *)
+(** * Proofs: testzip()                                                  *)
+(* ------------------------------------------------------------------ *)
+
+Lemma check_clear dec l : check dec (map clear_f l) = check dec l.
+Proof.
+  induction l as [| f r IH]; [reflexivity |]. cbn [map check clear_f f_id f_crc]. rewrite IH. reflexivity.
+Qed.
+
+Lemma filter_nonempty_clear l : filter nonempty (map clear_f l) = map clear_f (filter nonempty l).
+Proof.
+  induction l as [| f r IH]; [reflexivity |]. cbn [map filter].
+  replace (nonempty (clear_f f)) with (nonempty f) by reflexivity.
+  destruct (nonempty f); cbn [map]; rewrite IH; reflexivity.
+Qed.
+
+Lemma filter_all_true {A} (l : list A) : filter (fun _ => true) l = l.
+Proof. induction l as [| x r IH]; [reflexivity |]. cbn [filter]. rewrite IH. reflexivity. Qed.
+
+Lemma clear_all_none l : forall f, In f (map clear_f l) -> tnone (f_tgt f) = true.
+Proof. intros f Hin. apply in_map_iff in Hin. destruct Hin as [g [<- _]]. reflexivity. Qed.
+
+Lemma run_folders_none symcheck link_ok dec : forall folders acc,
+  (forall l, In l folders -> forall f, In f l -> tnone (f_tgt f) = true) ->
+  run_calls symcheck link_ok dec (map (fun l => (false, l)) folders) acc =
+    match check dec (concat (map (filter nonempty) folders)) with Some x => Raised x | None => Done acc end.
+Proof.
+  induction folders as [| l r IH]; intros acc Hn; [reflexivity |].
+  cbn [map run_calls concat]. unfold extract_single.
+  rewrite go_all_none by (apply Hn; left; reflexivity). cbn [app].
+  rewrite check_app. destruct (check dec (filter nonempty l)); [reflexivity |].
+  apply IH. intros l' Hl'. apply Hn. right. exact Hl'.
+Qed.
+
+Lemma all_data_clear s : all_data (clear_shape s) = map clear_f (all_data s).
+Proof.
+  destruct s as [files | files | files folders]; cbn [clear_shape all_data map]; [reflexivity | apply filter_nonempty_clear |].
+  induction folders as [| l r IH]; [reflexivity |].
+  cbn [map concat]. rewrite map_app, filter_nonempty_clear, IH. reflexivity.
+Qed.
+
+(* testzip() is one pass of _check over every data member, in decoding order *)
+Lemma worker_extract_cleared symcheck link_ok dec s :
+  worker_extract symcheck link_ok dec false (clear_shape s) =
+    match check dec (all_data s) with Some x => Raised x | None => Done [] end.
+Proof.
+  rewrite <- (check_clear dec (all_data s)), <- all_data_clear.
+  unfold worker_extract. destruct s as [files | files | files folders]; cbn [clear_shape calls all_data].
+  - cbn [run_calls]. unfold extract_single. rewrite go_all_empty; [reflexivity | |].
+    + intros f Hf. apply filter_In in Hf. destruct Hf as [Hf _]. eapply clear_all_none; exact Hf.
+    + intros f Hf. apply filter_In in Hf. destruct Hf as [_ Hf]. exact Hf.
+  - cbn [run_calls]. unfold extract_single. rewrite go_all_none by apply clear_all_none. cbn [app].
+    destruct (check dec (filter nonempty (map clear_f files))); reflexivity.
+  - cbn [run_calls]. unfold extract_single. rewrite go_all_empty.
+    + cbn [negb orb]. rewrite filter_all_true. apply run_folders_none.
+      intros l Hl. apply in_map_iff in Hl. destruct Hl as [l0 [<- _]]. apply clear_all_none.
+    + intros f Hf. apply filter_In in Hf. destruct Hf as [Hf _]. eapply clear_all_none; exact Hf.
+    + intros f Hf. apply filter_In in Hf. destruct Hf as [_ Hf]. exact Hf.
+Qed.
+
+Lemma testzip_char tzf dec s :
+  testzip tzf dec s =
+    match check dec (all_data s) with
+    | None => TZ None
+    | Some (XCrc (Some i)) => TZ (Some i)
+    | Some (XCrc None) => if tzf then TZFlag else TZ None
+    | Some (XErr e) => TZRaise e
+    end.
+Proof.
+  unfold testzip. rewrite worker_extract_cleared.
+  destruct (check dec (all_data s)) as [[[i |] | e] |]; reflexivity.
+Qed.
+
+(* on an intact archive testzip() reports no damage *)
+Theorem testzip_intact : forall tzf dec s,
+  (forall f, In f (all_data s) -> passes dec f) -> testzip tzf dec s = TZ None.
+Proof. intros tzf dec s H. rewrite testzip_char, (passes_check_none dec _ H). reflexivity. Qed.
+
+(* testzip() = None means every data member was decoded and compared -- provided no folder-level
+   CRC error can occur (no folder CRC stored), or in the repaired variant *)
+Theorem testzip_sound_partial : forall tzf dec s,
+  tzf = true \/ (forall f, In f (all_data s) -> dec (f_id f) <> DFolderCrc) ->
+  testzip tzf dec s = TZ None ->
+  forall f, In f (all_data s) -> passes dec f.
+Proof.
+  intros tzf dec s Hcase H. rewrite testzip_char in H.
+  destruct (check dec (all_data s)) as [[[i |] | e] |] eqn:Ec; try discriminate.
+  - destruct Hcase as [-> | Hno]; [discriminate |].
+    destruct (check_foldercrc dec _ Ec) as [f [Hin Hf]]. exfalso. exact (Hno f Hin Hf).
+  - apply check_none_passes. exact Ec.
+Qed.
+
+(* the members of the shape, list by list *)
+Definition shape_lists (s : shape) : list (list mfile) :=
+  match s with
+  | NoStreams files => [files]
+  | OneFolder files => [files]
+  | ManyFolders files folders => files :: folders
+  end.
+
+Section ExtractOk.
+  Variable symcheck : bool.
+  Variable link_ok : bytes -> bool.
+  Variable dec : Z -> dres.
+
+  Lemma go_ok : forall files skip just acc,
+    (forall f, In f just -> passes dec f) ->
+    (forall f, In f files -> f_empty f = false -> passes dec f) ->
+    (forall f, In f files -> f_symlink f && tpath (f_tgt f) = false) ->
+    exists out, extract_go symcheck link_ok dec skip files just acc = Done out.
+  Proof.
+    induction files as [| f r IH]; intros skip just acc Hj Hf Hs.
+    - cbn [extract_go]. destruct skip; [eexists; reflexivity |].
+      rewrite (passes_check_none dec _ Hj). eexists; reflexivity.
+    - cbn [extract_go].
+      assert (Hr : forall g, In g r -> f_empty g = false -> passes dec g) by (intros g Hg; apply Hf; right; exact Hg).
+      assert (Hsr : forall g, In g r -> f_symlink g && tpath (f_tgt g) = false) by (intros g Hg; apply Hs; right; exact Hg).
+      destruct (tnone (f_tgt f)).
+      + destruct (f_empty f) eqn:Ee; [apply IH; assumption |].
+        apply IH; [| assumption | assumption].
+        intros g Hg. apply in_app_or in Hg. destruct Hg as [Hg | [<- | []]]; [apply Hj; exact Hg |].
+        apply Hf; [left; reflexivity | exact Ee].
+      + rewrite (passes_check_none dec _ Hj).
+        destruct (f_empty f) eqn:Ee; [apply IH; [intros g [] | assumption | assumption] |].
+        destruct (Hf f (or_introl eq_refl) Ee) as [ch [Ed Ec]]. rewrite Ed, Ec.
+        rewrite (Hs f (or_introl eq_refl)). apply IH; [intros g [] | assumption | assumption].
+  Qed.
+
+  Lemma run_ok : forall cs acc,
+    (forall sk l, In (sk, l) cs -> (forall f, In f l -> f_empty f = false -> passes dec f) /\
+                                   (forall f, In f l -> f_symlink f && tpath (f_tgt f) = false)) ->
+    exists out, run_calls symcheck link_ok dec cs acc = Done out.
+  Proof.
+    induction cs as [| [sk l] r IH]; intros acc H; [eexists; reflexivity |].
+    cbn [run_calls]. unfold extract_single.
+    destruct (H sk l (or_introl eq_refl)) as [Hp Hs].
+    destruct (go_ok l sk [] acc (fun g (Hg : In g []) => match Hg with end) Hp Hs) as [out Ho]. rewrite Ho.
+    apply IH. intros sk' l' Hin. apply (H sk' l'). right. exact Hin.
+  Qed.
+End ExtractOk.
+
+(* "never certifies as good an archive whose members would not extract": when testzip() returns
+   None, extraction of the same image (any choice of targets) succeeds -- again unless a
+   folder-level CRC error is what testzip() swallowed *)
+Theorem testzip_none_extract_ok : forall tzf symcheck link_ok dec s skip,
+  tzf = true \/ (forall f, In f (all_data s) -> dec (f_id f) <> DFolderCrc) ->
+  (forall l, In l (shape_lists s) -> forall f, In f l -> f_symlink f && tpath (f_tgt f) = false) ->
+  testzip tzf dec s = TZ None ->
+  exists out, worker_extract symcheck link_ok dec skip s = Done out.
+Proof.
+  intros tzf symcheck link_ok dec s skip Hcase Hsym Htz.
+  pose proof (testzip_sound_partial tzf dec s Hcase Htz) as Hp.
+  unfold worker_extract. apply (run_ok symcheck link_ok dec (calls skip s) []). intros sk l Hin.
+  destruct s as [files | files | files folders]; cbn [calls] in Hin; cbn [shape_lists all_data] in *.
+  - destruct Hin as [Hin | []]. injection Hin as <- <-. split.
+    + intros f Hf He. apply filter_In in Hf. destruct Hf as [_ Hf]. congruence.
+    + intros f Hf. apply filter_In in Hf. destruct Hf as [Hf _]. apply (Hsym files); [left; reflexivity | exact Hf].
+  - destruct Hin as [Hin | []]. injection Hin as <- <-. split.
+    + intros f Hf He. apply Hp. apply filter_In. split; [exact Hf |]. unfold nonempty. rewrite He. reflexivity.
+    + intros f Hf. apply (Hsym files); [left; reflexivity | exact Hf].
+  - destruct Hin as [Hin | Hin].
+    + injection Hin as <- <-. split.
+      * intros f Hf He. apply filter_In in Hf. destruct Hf as [_ Hf]. congruence.
+      * intros f Hf. apply filter_In in Hf. destruct Hf as [Hf _]. apply (Hsym files); [left; reflexivity | exact Hf].
+    + apply in_map_iff in Hin. destruct Hin as [l0 [Heq Hl0]]. injection Heq as <- <-.
+      apply filter_In in Hl0. destruct Hl0 as [Hl0 _]. split.
+      * intros f Hf He. apply Hp. apply in_concat. exists (filter nonempty l0). split.
+        -- apply in_map. exact Hl0.
+        -- apply filter_In. split; [exact Hf |]. unfold nonempty. rewrite He. reflexivity.
+      * intros f Hf. apply (Hsym l0); [right; exact Hl0 | exact Hf].
+Qed.
+
+(* ------------------------------------------------------------------ *)
+(** * Proofs: test()                                                     *)
+(* ------------------------------------------------------------------ *)
+
+(* every packed stream whose CRC is stored has that CRC *)
+Fixpoint streams_match (defs : list bool) (sizes crcs : list Z) (pos : Z) (body : bytes) : Prop :=
+  match defs with
+  | [] => True
+  | d :: ds =>
+      match sizes with
+      | [] => False
+      | sz :: ss =>
+          if d then
+            match crcs with
+            | [] => False
+            | c :: cs => crc32 (sliceZ pos sz body) = c /\ streams_match ds ss cs (pos + sz) body
+            end
+          else streams_match ds ss crcs (pos + sz) body
+      end
+  end.
+
+Lemma test_go_true_iff : forall defs sizes crcs pos body,
+  test_go defs sizes crcs pos body = Ok true <-> streams_match defs sizes crcs pos body.
+Proof.
+  induction defs as [| d ds IH]; intros sizes crcs pos body; cbn [test_go streams_match]; [tauto |].
+  destruct sizes as [| sz ss]; [split; [discriminate | tauto] |].
+  destruct d; [| apply IH].
+  destruct crcs as [| c cs]; [split; [discriminate | tauto] |].
+  destruct (crc32 (sliceZ pos sz body) =? c) eqn:E.
+  - apply Z.eqb_eq in E. rewrite IH. tauto.
+  - apply Z.eqb_neq in E. split; [discriminate | tauto].
+Qed.
+
+(* on an intact archive test() reports no damage: True, or None when no packed CRC is stored
+   (py7zr's writer stores packed CRCs only for encrypted archives) *)
+Theorem test_intact : forall packpos defs sizes crcs body,
+  streams_match defs sizes crcs packpos body ->
+  test_model packpos defs sizes crcs body = Ok (if match crcs with [] => true | _ => false end then None else Some true).
+Proof.
+  intros packpos defs sizes crcs body H. unfold test_model.
+  destruct crcs as [| c cs]; [reflexivity |].
+  rewrite (proj2 (test_go_true_iff _ _ _ _ _) H). reflexivity.
+Qed.
+
+Theorem test_none_iff : forall packpos defs sizes crcs body,
+  test_model packpos defs sizes crcs body = Ok None <-> crcs = [].
+Proof.
+  intros. unfold test_model. destruct crcs as [| c cs]; [tauto |].
+  split; [| discriminate]. destruct (test_go defs sizes (c :: cs) packpos body); cbn [bind]; discriminate.
+Qed.
+
+Theorem test_true_sound : forall packpos defs sizes crcs body,
+  test_model packpos defs sizes crcs body = Ok (Some true) -> streams_match defs sizes crcs packpos body.
+Proof.
+  intros packpos defs sizes crcs body H. unfold test_model in H. destruct crcs as [| c cs]; [discriminate |].
+  destruct (test_go defs sizes (c :: cs) packpos body) as [b | e] eqn:E; cbn [bind] in H; [| discriminate].
+  injection H as ->. apply test_go_true_iff. exact E.
+Qed.
+
+(* a <= 32-bit burst inside a packed stream whose CRC is stored makes test() return False *)
+Theorem test_burst_detected : forall ds sz ss c cs pre p p' post,
+  zlen p = sz -> crc32 p = c -> burst p p' ->
+  test_model (zlen pre) (true :: ds) (sz :: ss) (c :: cs) (pre ++ p' ++ post) = Ok (Some false).
+Proof.
+  intros ds sz ss c cs pre p p' post Hsz Hc Hb. unfold test_model. cbn [test_go].
+  assert (Hsz' : zlen p' = sz) by (destruct Hb as [Hl _]; unfold zlen in *; lia).
+  rewrite <- Hsz', sliceZ_mid.
+  destruct (crc32 p' =? c) eqn:E; [| reflexivity]. apply Z.eqb_eq in E.
+  exfalso. apply (burst_crc p p' Hb). lia.
+Qed.
+
+(* ------------------------------------------------------------------ *)
+(** * Proofs: the whole chain                                            *)
+(* ------------------------------------------------------------------ *)
+
+Lemma list_forall_or_exists {A} (P Q : A -> Prop) (l : list A) :
+  (forall x, In x l -> P x \/ Q x) -> (forall x, In x l -> P x) \/ (exists x, In x l /\ Q x).
+Proof.
+  induction l as [| a r IH]; intros H; [left; intros x [] |].
+  destruct (H a (or_introl eq_refl)) as [Pa | Qa]; [| right; exists a; split; [left; reflexivity | exact Qa]].
+  destruct IH as [Hall | [x [Hin Hq]]].
+  - intros x Hx. apply H. right. exact Hx.
+  - left. intros x [<- | Hx]; [exact Pa | apply Hall; exact Hx].
+  - right. exists x. split; [right; exact Hin | exact Hq].
+Qed.
+
+Section ReaderProofs.
+  Variable symcheck : bool.
+  Variable link_ok : bytes -> bool.
+  Variable hmeta : Type.
+  Variable empty_meta : hmeta.
+  Variable parse_plain : bytes -> res hmeta.
+  Variable enc_crc : bytes -> option Z.
+  Variable enc_decode : bytes -> bytes -> res bytes.
+  Variable shape_of : hmeta -> shape.
+  Variable decoder : hmeta -> bytes -> Z -> dres.
+
+  Notation read_archive := (read_archive symcheck link_ok hmeta empty_meta parse_plain enc_crc enc_decode shape_of decoder).
+  Notation open_archive := (open_archive hmeta empty_meta parse_plain enc_crc enc_decode).
+  Notation load_meta := (load_meta hmeta empty_meta parse_plain enc_crc enc_decode).
+  Notation header_plain := (header_plain enc_crc enc_decode).
+  Notation plain_header := (plain_header enc_crc enc_decode).
+  Notation header_protected := (header_protected enc_crc).
+
+  Lemma open_ok img m body :
+    open_archive img = Ok (m, body) ->
+    exists s h, sig_read img = Ok s /\ body = dropZ 32 img /\ hdr_read body s = Ok h /\ load_meta h body = Ok m.
+  Proof.
+    unfold open_archive. intros H.
+    destruct (sig_read img) as [s | e] eqn:Es; cbn [bind] in H; [| discriminate].
+    destruct (hdr_read (dropZ 32 img) s) as [h | e] eqn:Eh; cbn [bind] in H; [| discriminate].
+    destruct (load_meta h (dropZ 32 img)) as [m0 | e] eqn:Em; cbn [bind] in H; [| discriminate].
+    injection H as <- <-. exists s, h. auto.
+  Qed.
+
+  (* same protected header bytes => same metadata, or the two decoded header streams collide *)
+  Lemma load_meta_same h body body' m m' :
+    header_protected h = true ->
+    load_meta h body = Ok m -> load_meta h body' = Ok m' ->
+    m = m' \/ exists p p', header_plain h body = Ok (Some p) /\ header_plain h body' = Ok (Some p') /\ crc_collision p p'.
+  Proof.
+    unfold load_meta, header_plain, header_protected. intros Hp H H'.
+    destruct h as [| pid t].
+    - cbn [bind] in H, H'. left. congruence.
+    - destruct (pid =? 1).
+      + cbn [bind] in H, H'. left. congruence.
+      + destruct (pid =? 23); [| discriminate]. cbn [orb andb] in Hp.
+        destruct (enc_crc (pid :: t)) as [c |]; [| discriminate].
+        destruct (enc_decode (pid :: t) body) as [d | e]; cbn [bind] in H |- *; [| discriminate].
+        destruct (enc_decode (pid :: t) body') as [d' | e]; cbn [bind] in H' |- *; [| discriminate].
+        destruct (crc32 d =? c) eqn:E; cbn [bind] in H |- *; [| discriminate].
+        destruct (crc32 d' =? c) eqn:E'; cbn [bind] in H' |- *; [| discriminate].
+        destruct (bytes_eq_dec d d') as [<- | Hne]; [left; congruence |].
+        right. exists d, d'. split; [reflexivity | split; [reflexivity |]]. split; [exact Hne | lia].
+  Qed.
+
+  (* C04, the reading side.  If the reader accepts an altered image img' of an accepted image img
+     whose header content is covered by a checksum, then every member it delivers that is compared on
+     delivery and has a stored CRC is a member the original delivers, same name, same bytes -- or
+     the pair (img, img') exhibits a CRC-32 collision at one named link of the chain, or the start
+     header was rewritten together with its own checksum (which no damage of <= 32 bits does:
+     burst_detected_start_header, start_crc_alteration_rejected). *)
+  Theorem accept_implies_intact_or_collision : forall img img' out out',
+    read_archive img = Done out ->
+    read_archive img' = Done out' ->
+    header_protected (next_header img) = true ->
+    (forall f d', In (f, d') out' -> checked symcheck f = true -> f_crc f <> None -> In (f, d') out)
+    \/ (start_crc img <> start_crc img' /\ start_fields img <> start_fields img')
+    \/ crc_collision (start_fields img) (start_fields img')
+    \/ crc_collision (next_header img) (next_header img')
+    \/ (exists p p', plain_header img = Some p /\ plain_header img' = Some p' /\ crc_collision p p')
+    \/ (exists f d d', In (f, d) out /\ In (f, d') out' /\ crc_collision d d').
+  Proof.
+    intros img img' out out' H H' Hprot.
+    unfold read_archive in H, H'.
+    destruct (open_archive img) as [[m body] | e] eqn:Eo; [| discriminate].
+    destruct (open_archive img') as [[m' body'] | e] eqn:Eo'; [| discriminate].
+    destruct (open_ok _ _ _ Eo) as [s [h [Hs [Hb [Hh Hm]]]]].
+    destruct (open_ok _ _ _ Eo') as [s' [h' [Hs' [Hb' [Hh' Hm']]]]].
+    destruct (sig_read_ok _ _ Hs) as [_ [Hc Hsf]]. destruct (sig_read_ok _ _ Hs') as [_ [Hc' Hsf']].
+    (* start header *)
+    destruct (bytes_eq_dec (start_fields img) (start_fields img')) as [HF | HF].
+    2:{ destruct (Z.eq_dec (start_crc img) (start_crc img')) as [Hcc | Hcc].
+        - right. right. left. split; [exact HF | congruence].
+        - right. left. split; assumption. }
+    assert (Hss : s' = s) by (rewrite Hsf, Hsf', HF; reflexivity). clear Hsf Hsf'. subst s'.
+    (* next header *)
+    destruct (hdr_read_ok _ _ _ Hh) as [Hhb Hhc]. destruct (hdr_read_ok _ _ _ Hh') as [Hhb' Hhc'].
+    assert (Hnh : next_header img = h) by (unfold next_header; rewrite Hs, <- Hb; symmetry; exact Hhb).
+    assert (Hnh' : next_header img' = h') by (unfold next_header; rewrite Hs', <- Hb'; symmetry; exact Hhb').
+    destruct (bytes_eq_dec h h') as [Hhh | Hhh].
+    2:{ right. right. right. left. rewrite Hnh, Hnh'. split; [exact Hhh | congruence]. }
+    rewrite <- Hhh in *. clear Hhh Hhb Hhb'. rewrite Hnh in Hprot.
+    (* header content *)
+    destruct (load_meta_same h body body' m m' Hprot Hm Hm') as [Hmm | [p [p' [Hp [Hp' Hcol]]]]].
+    2:{ right. right. right. right. left. exists p, p'. unfold plain_header.
+        rewrite Hnh, Hnh', <- Hb, <- Hb', Hp, Hp'. auto. }
+    subst m'.
+    (* members *)
+    set (dec := decoder m body) in *. set (dec' := decoder m body') in *.
+    unfold worker_extract in H, H'.
+    assert (Hmem : forall x, In x out' ->
+              (checked symcheck (fst x) = true -> f_crc (fst x) <> None -> In x out) \/
+              (exists d, In (fst x, d) out /\ crc_collision d (snd x))).
+    { intros [f d'] Hin. cbn [fst snd].
+      destruct (checked symcheck f) eqn:Eck; [| left; discriminate].
+      destruct (f_crc f) as [c |] eqn:Ecrc; [| left; intros _ Hn; contradiction].
+      destruct (run_sound _ _ _ _ _ _ H' (f, d') Hin) as [[] | [sk [l [Hcl [Hfl [Ht Hd']]]]]].
+      cbn [fst snd] in Hfl, Ht, Hd'.
+      destruct (run_complete _ _ _ _ _ _ H) as [_ Hall].
+      destruct (Hall sk l f Hcl Hfl Ht) as [d Hd].
+      destruct (run_sound _ _ _ _ _ _ H (f, d) Hd) as [[] | [sk0 [l0 [_ [_ [_ Hdo]]]]]].
+      cbn [fst snd] in Hdo.
+      destruct Hd' as [[He ->] | [He [ch' [_ [-> Hok']]]]]; destruct Hdo as [[He0 ->] | [He0 [ch [_ [-> Hok]]]]];
+        try congruence.
+      - left. intros _ _. exact Hd.
+      - specialize (Hok' Eck). specialize (Hok Eck). rewrite Ecrc in Hok, Hok'.
+        cbn [crc_bad] in Hok, Hok'. rewrite crc_chunks_0 in Hok, Hok'.
+        destruct (bytes_eq_dec (concat ch) (concat ch')) as [Heq | Hne].
+        + left. intros _ _. rewrite <- Heq. exact Hd.
+        + right. exists (concat ch). split; [exact Hd |]. split; [exact Hne | lia]. }
+    destruct (list_forall_or_exists _ _ _ Hmem) as [Hall | [[f d'] [Hin [d [Hd Hcol]]]]].
+    - left. intros f d' Hin. exact (Hall (f, d') Hin).
+    - right. right. right. right. right. exists f, d, d'. cbn [fst snd] in *. auto.
+  Qed.
+
+  (* the two version bytes are neither checked nor used: altering them changes nothing *)
+  Theorem version_alteration_harmless : forall m v v' rest,
+    zlen m = 6 -> zlen v = 2 -> zlen v' = 2 ->
+    read_archive (m ++ v' ++ rest) = read_archive (m ++ v ++ rest).
+  Proof.
+    intros m v v' rest Hm Hv Hv'.
+    assert (Hd : forall w k, zlen w = 2 -> 0 <= k -> dropZ (8 + k) (m ++ w ++ rest) = dropZ k rest).
+    { intros w k Hw Hk. rewrite app_assoc. replace (8 + k) with (zlen (m ++ w) + k) by (rewrite zlen_app; lia).
+      apply dropZ_app_plus. exact Hk. }
+    assert (Hsig : forall w, zlen w = 2 ->
+              sig_read (m ++ w ++ rest) =
+                if negb (bytes_eqb m magic7z) then Err EBad7z
+                else if 8 + zlen rest <? 32 then Err EOther
+                else if fields_crc (takeZ 20 (dropZ 4 rest)) =? le_value (takeZ 4 rest)
+                     then Ok (fields_sig (takeZ 20 (dropZ 4 rest))) else Err EBad7z).
+    { intros w Hw. unfold sig_read, start_fields, start_crc, sliceZ.
+      replace 6 with (zlen m) by lia. rewrite takeZ_app_len.
+      rewrite !zlen_app. replace (zlen m + (zlen w + zlen rest)) with (8 + zlen rest) by lia.
+      change 12 with (8 + 4). rewrite (Hd w 4 Hw) by lia.
+      replace (dropZ 8 (m ++ w ++ rest)) with (dropZ (8 + 0) (m ++ w ++ rest)) by reflexivity.
+      rewrite (Hd w 0 Hw) by lia. rewrite (dropZ_nonpos 0 rest) by lia. reflexivity. }
+    unfold read_archive, open_archive.
+    rewrite (Hsig v Hv), (Hsig v' Hv').
+    change 32 with (8 + 24). rewrite (Hd v 24 Hv), (Hd v' 24 Hv') by lia. reflexivity.
+  Qed.
+End ReaderProofs.
+
+(* ------------------------------------------------------------------ *)
+(** * A concrete instance, refutation witnesses, non-vacuity examples    *)
+(* ------------------------------------------------------------------ *)
+
+Module Toy.
+  Fixpoint le_bytes (n : nat) (v : Z) : bytes :=
+    match n with O => [] | S k => v mod 256 :: le_bytes k (v / 256) end.
+
+  (* plain header: kHeader, the member's CRC, its name; the member is the first two bytes of the
+     body, stored under the Copy coder *)
+  Definition parse_plain (p : bytes) : res (list mfile) :=
+    match p with
+    | 1 :: c0 :: c1 :: c2 :: c3 :: name =>
+        Ok [mkFile 0 name false (Some (le_value [c0; c1; c2; c3])) false TMem]
+    | _ => Err EBad7z
+    end.
+  (* encoded-header descriptor: kEncodedHeader, offset, length of a Copy-coded header stream,
+     optionally followed by its CRC *)
+  Definition enc_crc (h : bytes) : option Z :=
+    match h with
+    | [_; _; _; c0; c1; c2; c3] => Some (le_value [c0; c1; c2; c3])
+    | _ => None
+    end.
+  Definition enc_decode (h body : bytes) : res bytes :=
+    match h with
+    | _ :: ofs :: len :: _ => Ok (sliceZ ofs len body)
+    | _ => Err EBad7z
+    end.
+  Definition shape_of (m : list mfile) : shape := OneFolder m.
+  Definition decoder (m : list mfile) (body : bytes) (id : Z) : dres := DOk [takeZ 2 body].
+
+  Definition read (symcheck : bool) : bytes -> outcome :=
+    read_archive symcheck (fun _ => true) (list mfile) [] parse_plain enc_crc enc_decode shape_of decoder.
+
+  (* a writer for this instance: start header with correct checksums *)
+  Definition image (body h : bytes) : bytes :=
+    let F := le_bytes 8 (zlen body) ++ le_bytes 8 (zlen h) ++ le_bytes 4 (crc32 h) in
+    magic7z ++ [0; 4] ++ le_bytes 4 (crc32 F) ++ F ++ body ++ h.
+
+  Definition data : bytes := [104; 105].
+  Definition plain (name : bytes) : bytes := 1 :: le_bytes 4 (crc32 data) ++ name.
+
+  (* raw header *)
+  Definition img_raw : bytes := image data (plain [97; 46; 116]).
+  (* encoded header, no CRC of the header stored (what py7zr's writer produces) *)
+  Definition img_enc (name : bytes) : bytes := image (data ++ plain name) [23; 2; zlen (plain name)].
+  (* encoded header with the CRC of the header stored (what 7-Zip produces) *)
+  Definition img_enc_crc (name : bytes) : bytes :=
+    image (data ++ plain name) ([23; 2; zlen (plain name)] ++ le_bytes 4 (crc32 (plain name))).
+
+  Definition member (name : bytes) : mfile := mkFile 0 name false (Some (crc32 data)) false TMem.
+End Toy.
+
+(* the instance reads what its writer wrote, in all three header modes *)
+Example toy_reads_raw : Toy.read false Toy.img_raw = Done [(Toy.member [97; 46; 116], Toy.data)].
+Proof. vm_compute. reflexivity. Qed.
+
+Example toy_reads_encoded : Toy.read false (Toy.img_enc [97; 46; 116]) = Done [(Toy.member [97; 46; 116], Toy.data)].
+Proof. vm_compute. reflexivity. Qed.
+
+Example toy_reads_encoded_crc :
+  Toy.read false (Toy.img_enc_crc [97; 46; 116]) = Done [(Toy.member [97; 46; 116], Toy.data)].
+Proof. vm_compute. reflexivity. Qed.
+
+(* hypotheses of accept_implies_intact_or_collision are met: an image and an altered image (bytes
+   appended, a version byte changed) that are both accepted, header protected *)
+Example accept_hypotheses_met :
+  let img := Toy.img_enc_crc [97; 46; 116] in
+  let img' := takeZ 6 img ++ [9; 9] ++ dropZ 8 img ++ [0; 255] in
+  img <> img' /\
+  Toy.read false img = Done [(Toy.member [97; 46; 116], Toy.data)] /\
+  Toy.read false img' = Done [(Toy.member [97; 46; 116], Toy.data)] /\
+  header_protected Toy.enc_crc (next_header img) = true.
+Proof. vm_compute. repeat split; try reflexivity. intros H. discriminate H. Qed.
+
+(* damage in the member, the next header, the start header fields, the stored CRCs: rejected *)
+Example toy_damage_rejected :
+  let img := Toy.img_raw in
+  let flip (i : nat) := firstn i img ++ [Z.lxor (nth i img 0) 4] ++ skipn (S i) img in
+  Toy.read false (flip 3%nat) = Raised (XErr EBad7z) /\       (* magic *)
+  Toy.read false (flip 9%nat) = Raised (XErr EBad7z) /\       (* start header CRC *)
+  Toy.read false (flip 13%nat) = Raised (XErr EBad7z) /\      (* next header offset *)
+  Toy.read false (flip 30%nat) = Raised (XErr EBad7z) /\      (* next header CRC *)
+  Toy.read false (flip 32%nat) = Raised (XCrc (Some 0)) /\    (* member data *)
+  Toy.read false (flip 36%nat) = Raised (XErr EBad7z) /\      (* header: stored member CRC *)
+  Toy.read false (flip 40%nat) = Raised (XErr EBad7z) /\      (* header: name *)
+  Toy.read false (flip 7%nat) = Toy.read false img.           (* version *)
+Proof. vm_compute. repeat split; reflexivity. Qed.
+
+(* REFUTED without header protection: an encoded header whose CRC is not stored (py7zr's own
+   writer: UnpackInfo.write "FIXME: write CRCs here").  One flipped bit in the packed header
+   stream; start header, next header, member data identical; both images accepted; the member is
+   delivered under a name the original does not have; no CRC collision is involved. *)
+Theorem accept_implies_intact_or_collision_refuted_unprotected_header :
+  exists img img' out out' f d,
+    Toy.read true img = Done out /\ Toy.read true img' = Done out' /\
+    start_crc img = start_crc img' /\ start_fields img = start_fields img' /\
+    next_header img = next_header img' /\
+    header_protected Toy.enc_crc (next_header img) = false /\
+    In (f, d) out' /\ checked true f = true /\ f_crc f <> None /\ ~ In (f, d) out /\
+    (forall g e, In (g, e) out -> f_name g <> f_name f) /\
+    (exists p p', plain_header Toy.enc_crc Toy.enc_decode img = Some p /\
+                  plain_header Toy.enc_crc Toy.enc_decode img' = Some p' /\ crc32 p <> crc32 p') /\
+    (forall g e e', In (g, e) out -> In (g, e') out' -> e = e').
+Proof.
+  exists (Toy.img_enc [97; 46; 116]), (Toy.img_enc [96; 46; 116]),
+         [(Toy.member [97; 46; 116], Toy.data)], [(Toy.member [96; 46; 116], Toy.data)],
+         (Toy.member [96; 46; 116]), Toy.data.
+  split; [vm_compute; reflexivity |]. split; [vm_compute; reflexivity |].
+  split; [vm_compute; reflexivity |]. split; [vm_compute; reflexivity |].
+  split; [vm_compute; reflexivity |]. split; [vm_compute; reflexivity |].
+  split; [left; reflexivity |]. split; [reflexivity |]. split; [discriminate |].
+  split; [intros [H | []]; discriminate H |].
+  split; [intros g e [H | []]; injection H as <- _; discriminate |].
+  split.
+  - exists (Toy.plain [97; 46; 116]), (Toy.plain [96; 46; 116]).
+    split; [vm_compute; reflexivity |]. split; [vm_compute; reflexivity |]. vm_compute. discriminate.
+  - intros g e e' [H | []] [H' | []]. congruence.
+Qed.
+
+(* the same damage is caught when the header CRC is stored *)
+Example encoded_header_crc_catches :
+  let img := Toy.img_enc_crc [97; 46; 116] in
+  let img' := firstn 39%nat img ++ [96] ++ skipn 40%nat img in
+  nth 39%nat img 0 = 97 /\ Toy.read true img' = Raised (XErr EBad7z).
+Proof. vm_compute. split; reflexivity. Qed.
+
+(* REFUTED for symbolic links extracted to a path (symcheck = false, the unchanged tree): the link
+   is created from bytes whose CRC differs from the stored one, and the call succeeds *)
+Theorem delivered_implies_checked_refuted_symlink :
+  exists dec s out f d c,
+    worker_extract false (fun _ => true) dec true s = Done out /\
+    In (f, d) out /\ f_crc f = Some c /\ f_empty f = false /\ crc32 d <> c /\
+    (* ... although the same bytes are flagged by testzip() and rejected by extraction through a factory *)
+    testzip false dec s = TZ (Some (f_id f)).
+Proof.
+  set (f := mkFile 7 [108] false (Some (crc32 [116; 97])) true TPath).
+  exists (fun _ => DOk [[116; 98]]), (OneFolder [f]), [(f, [116; 98])], f, [116; 98], (crc32 [116; 97]).
+  split; [vm_compute; reflexivity |]. split; [left; reflexivity |]. split; [reflexivity |].
+  split; [reflexivity |]. split; [vm_compute; discriminate | vm_compute; reflexivity].
+Qed.
+
+(* with the comparison in place (symcheck = true) the same input is rejected *)
+Example symlink_checked_when_repaired :
+  let f := mkFile 7 [108] false (Some (crc32 [116; 97])) true TPath in
+  worker_extract true (fun _ => true) (fun _ => DOk [[116; 98]]) true (OneFolder [f]) = Raised (XCrc (Some 7)).
+Proof. vm_compute. reflexivity. Qed.
+
+(* REFUTED: testzip() = None does not mean that every member's CRC matched.  A folder-level CRC
+   mismatch raises CrcError(crc, digest, None); testzip returns args[2] = None. *)
+Theorem testzip_sound_refuted :
+  exists dec s f,
+    testzip false dec s = TZ None /\ In f (all_data s) /\ ~ passes dec f /\
+    worker_extract false (fun _ => true) dec true s = Raised (XCrc None).
+Proof.
+  set (f := mkFile 0 [97] false None false TMem).
+  exists (fun _ => DFolderCrc), (OneFolder [f]), f.
+  split; [vm_compute; reflexivity |]. split; [left; reflexivity |].
+  split; [intros [ch [H _]]; discriminate H | vm_compute; reflexivity].
+Qed.
+
+(* hypotheses of the flow theorems are met by a non-trivial state: a folder whose second member
+   is skipped (decoded only to be checked), third delivered, fourth (trailing, skipped) not decoded *)
+Example flow_example :
+  let f (i : Z) (t : tkind) (d : bytes) := mkFile i [i] false (Some (crc32 d)) false t in
+  let files := [f 1 TMem [1]; f 2 TNone [2; 2]; f 3 TMem [3]; f 4 TNone [4]] in
+  let dec (i : Z) := if i =? 4 then DErr EEof else DOk [[i]; if i =? 2 then [2] else []] in
+  worker_extract false (fun _ => true) dec true (OneFolder files) = Done [(f 1 TMem [1], [1]); (f 3 TMem [3], [3])] /\
+  (* the skipped member is checked: damage in it fails the call *)
+  worker_extract false (fun _ => true) (fun i => if i =? 2 then DOk [[2; 3]] else dec i) true (OneFolder files)
+    = Raised (XCrc (Some 2)) /\
+  testzip false dec (OneFolder files) = TZRaise EEof.
+Proof. vm_compute. repeat split; reflexivity. Qed.
+
+Example burst_example : burst [1; 2; 3; 4; 5; 6] [1; 2; 3; 255; 250; 6].
+Proof. split; [reflexivity |]. exists 65531%N, 24%N. vm_compute. repeat split; reflexivity. Qed.
+
+Example test_example :
+  test_model 1 [true; false; true] [2; 1; 3] [crc32 [5; 6]; crc32 [8; 9; 10]] [0; 5; 6; 7; 8; 9; 10] = Ok (Some true) /\
+  test_model 1 [true; false; true] [2; 1; 3] [crc32 [5; 6]; crc32 [8; 9; 10]] [0; 5; 6; 7; 8; 9; 11] = Ok (Some false) /\
+  test_model 1 [] [2; 1; 3] [] [0; 5; 6; 7; 8; 9; 10] = Ok None.
+Proof. vm_compute. repeat split; reflexivity. Qed.
+
+Print Assumptions calculate_crc32_eq.
+Print Assumptions burst_detected_start_header.
+Print Assumptions burst_detected_header.
+Print Assumptions delivered_implies_checked.
+Print Assumptions copy_burst_detected.
+Print Assumptions accept_implies_intact_or_collision.
+Print Assumptions version_alteration_harmless.
+Print Assumptions testzip_sound_partial.
+Print Assumptions testzip_none_extract_ok.
+Print Assumptions testzip_sound_refuted.
+Print Assumptions accept_implies_intact_or_collision_refuted_unprotected_header.
+Print Assumptions delivered_implies_checked_refuted_symlink.
